@@ -43,11 +43,22 @@ BIN = {ast.Add: ('+', ['-']), ast.Sub: ('-', ['+']),
 
 
 def sh(cmd, cwd=None, timeout=300, env=None):
+    # own process group, killed as a whole on timeout: a mutant that loops
+    # forever must not outlive the scan (a shell=True child did, for hours)
+    import os
+    import signal
+    p = subprocess.Popen(cmd, shell=True, cwd=cwd, stdout=subprocess.PIPE,
+                         stderr=subprocess.STDOUT, text=True, env=env,
+                         start_new_session=True)
     try:
-        p = subprocess.run(cmd, shell=True, cwd=cwd, capture_output=True,
-                           text=True, timeout=timeout, env=env)
-        return p.returncode, p.stdout + p.stderr
+        out, _ = p.communicate(timeout=timeout)
+        return p.returncode, out
     except subprocess.TimeoutExpired:
+        try:
+            os.killpg(p.pid, signal.SIGKILL)
+        except ProcessLookupError:
+            pass
+        p.wait()
         return 124, 'timeout'
 
 
